@@ -24,7 +24,10 @@
                terminal status, later another Create for the channel
      4 C13-K3  a garbage-collect command together with another task-writing command
      5 C13-K4  an outbox cleanup followed by another command for the same hash slot
-     6 C13-K5  two non-GC commands that write the same channel-migration task row.
+     6 C13-K5  two non-GC commands that write the same channel-migration task row
+     7 C13-K6  a DeleteChannel of channel g followed in the batch by an Add/RemoveSubscribers for g
+               naming a uid that was subscribed to g when the DeleteChannel ran (subscribed
+               before the batch or added earlier in it), computed from the log alone.
    Definitions only. *)
 From WK Require Import Base.Base.
 From WK Require Import Gen.Consts_C15 Gen.Consts_C17 Gen.Consts_C13.
@@ -33,12 +36,18 @@ Open Scope N_scope.
 
 (* ---- the case ---------------------------------------------------------------------------- *)
 
+(* the channel / subscriber commands are not interpreted by the model; the monitor's signature of
+   known finding K6 needs their kind, channel and uids: kind 1 DeleteChannel, 2 AddSubscribers,
+   3 RemoveSubscribers, 4 any other write of the channel row (create, upsert, patch) *)
+Record chan_op := ChanOp { ch_kind : N; ch_id : bytes; ch_ty : Z; ch_uids : list bytes }.
+
 Record entry := Entry {
   e_slot_ok : bool;
   e_hs : N;
   e_cmd : hcmd;
   e_data : bytes;                          (* the payload, when the case needs it (outbox rows, raw payloads) *)
-  e_dec : option (bytes * dec_obs) }.      (* payload and what the real decodeCommand made of it *)
+  e_dec : option (bytes * dec_obs);        (* payload and what the real decodeCommand made of it *)
+  e_chan : option chan_op }.               (* channel-row / subscriber commands: what the K6 signature needs *)
 
 Inductive bout := BFatal (cls : N) | BOk (rs : list (N * N)).   (* per command: result class, hash of the result bytes *)
 
@@ -292,12 +301,52 @@ Definition sig_k5 (batch : list entry) : bool :=
     | None => false
     end) batch.
 
-Definition classify (batch : list entry) : N :=
+(* K6: the subscriber sets as the log alone determines them (every command taken as applied) *)
+Definition sub_row := (N * bytes * Z * bytes)%type.        (* hash slot, channel id, channel type, uid *)
+Definition sub_of_chan (hs : N) (o : chan_op) (r : sub_row) : bool :=
+  let '(h, id, ty, _) := r in (h =? hs) && bytes_eqb id (ch_id o) && (ty =? ch_ty o)%Z.
+Definition sub_is (hs : N) (o : chan_op) (uid : bytes) (r : sub_row) : bool :=
+  let '(_, _, _, u) := r in sub_of_chan hs o r && bytes_eqb u uid.
+
+Definition subs_step (subs : list sub_row) (e : entry) : list sub_row :=
+  match e_chan e with
+  | None => subs
+  | Some o =>
+    if ch_kind o =? 1 then filter (fun r => negb (sub_of_chan (e_hs e) o r)) subs
+    else if ch_kind o =? 2 then
+      fold_left (fun acc u => if existsb (sub_is (e_hs e) o u) acc then acc else (e_hs e, ch_id o, ch_ty o, u) :: acc)
+                (ch_uids o) subs
+    else if ch_kind o =? 3 then
+      filter (fun r => negb (existsb (fun u => sub_is (e_hs e) o u r) (ch_uids o))) subs
+    else subs
+  end.
+
+(* [watch]: the rows that were subscribed when a DeleteChannel of their channel ran in this batch *)
+Fixpoint k6_scan (subs watch : list sub_row) (batch : list entry) : bool :=
+  match batch with
+  | [] => false
+  | e :: r =>
+    match e_chan e with
+    | Some o =>
+      if ch_kind o =? 1 then
+        k6_scan (subs_step subs e) (filter (sub_of_chan (e_hs e) o) subs ++ watch) r
+      else if (ch_kind o =? 2) || (ch_kind o =? 3) then
+        existsb (fun u => existsb (sub_is (e_hs e) o u) watch) (ch_uids o) || k6_scan (subs_step subs e) watch r
+      else k6_scan subs watch r
+    | None => k6_scan subs watch r
+    end
+  end.
+
+Definition sig_k6 (done batch : list entry) : bool := k6_scan (fold_left subs_step done []) [] batch.
+
+(* [done]: the log entries before the batch *)
+Definition classify (done batch : list entry) : N :=
   if sig_k1 batch then 2
   else if sig_k2 batch then 3
   else if sig_k3 batch then 4
   else if sig_k4 batch then 5
   else if sig_k5 batch then 6
+  else if sig_k6 done batch then 7
   else 1.
 
 (* ---- a partition run against the reference run --------------------------------------------------- *)
@@ -342,7 +391,7 @@ Definition res_eqb (a b : N * N) : bool := (fst a =? fst b) && (snd a =? snd b).
    command must fail, and leave either the store of the batch start or (stale fallback: the
    commands are re-applied one by one) the reference store before the failing command; the run
    ends there. *)
-Fixpoint walk (st : wst) (ref : list bobs) (log : list entry) (sizes : list N) (obs : list bobs) : N :=
+Fixpoint walk (st : wst) (done : list entry) (ref : list bobs) (log : list entry) (sizes : list N) (obs : list bobs) : N :=
   match sizes, obs with
   | [], [] => 0
   | [], _ :: _ => 1
@@ -360,19 +409,19 @@ Fixpoint walk (st : wst) (ref : list bobs) (log : list entry) (sizes : list N) (
               let a := N.to_nat (bo_applied o) in
               if list_eqb res_eqb rs rs' && (bo_digest o =? w_digest st')
                  && Nat.leb (w_floor st') a && Nat.leb a (w_pos st')
-              then walk st' (skipn len ref) (skipn len log) sr orest
-              else classify batch
-          | BFatal _ => classify batch
+              then walk st' (done ++ batch) (skipn len ref) (skipn len log) sr orest
+              else classify done batch
+          | BFatal _ => classify done batch
           end
-        else classify batch
+        else classify done batch
     | None =>
         let stf := fold_left seg_step (before_fatal seg) st in
         match bo_out o with
         | BFatal _ =>
             if ((bo_digest o =? w_digest st) || (bo_digest o =? w_digest stf))
                && match orest with [] => true | _ => false end
-            then 0 else classify batch
-        | BOk _ => classify batch
+            then 0 else classify done batch
+        | BOk _ => classify done batch
         end
     end
   end.
@@ -431,4 +480,4 @@ Fixpoint max_code (l : list N) : N :=
 Definition C13_monitor (c : c13_case) : N :=
   if negb (ref_ok c 0 (c_log c) (c_ref c) (c_d0 c) 0 && ref_complete c) then 1
   else if negb (forallb snap_ok (c_snaps c)) then 1
-  else max_code (map (fun p => walk (WSt 0 (c_d0 c) 0) (c_ref c) (c_log c) (p_sizes p) (p_obs p)) (c_parts c)).
+  else max_code (map (fun p => walk (WSt 0 (c_d0 c) 0) [] (c_ref c) (c_log c) (p_sizes p) (p_obs p)) (c_parts c)).
